@@ -58,6 +58,13 @@ func (n *Node) applyToTip(e *blockEntry) error {
 	first := !e.applied
 	enc := encodeState(ns)
 	sig := diffDigest(au.SiacoinElementDiffs(), au.SiafundElementDiffs(), au.FileContractElementDiffs(), au.V2FileContractElementDiffs())
+	if prev, ok := w.stateByBlock[e.id]; ok {
+		if prev != string(enc)+sig {
+			w.violate("C09", "state-depends-on-history", fmt.Sprintf("node %d applying block %s at height %d reached a different state or diffs than another node did for the same block", n.idx, short(e.id), e.height))
+		}
+	} else {
+		w.stateByBlock[e.id] = string(enc) + sig
+	}
 	if first {
 		e.applied, e.state, e.stateEnc, e.diffSig = true, ns, enc, sig
 	} else {
@@ -70,6 +77,8 @@ func (n *Node) applyToTip(e *blockEntry) error {
 		w.stats.Inc("reach.reapply")
 	}
 	e.supp = supp
+	e.applyDiffs = noProofDiffs(au.SiacoinElementDiffs(), au.SiafundElementDiffs(), au.FileContractElementDiffs(), au.V2FileContractElementDiffs())
+	e.preStore, e.preStoreNoProof = n.store.digest(true), n.store.digest(false)
 	n.store.apply(au)
 	n.best = append(n.best, e.id)
 	n.tip = ns
@@ -147,6 +156,14 @@ func (n *Node) considerTip(e *blockEntry) {
 			// descendants, restore the old branch.
 			w.log.Addf("t=%d node=%d ev=reject id=%s h=%d err=%q", w.now, n.idx, short(p.id), p.height, errClass(err))
 			w.stats.Inc("node.reject")
+			if debugHook != nil {
+				for _, o := range w.nodes {
+					if oe, ok := o.blocks[p.id]; ok && o != n {
+						pe := o.blocks[p.parent]
+						w.log.Addf("DBG reject at node %d: node %d has it applied=%v invalid=%v sameFull=%v sameWire=%v parentStateSame=%v", n.idx, o.idx, oe.applied, oe.invalid, string(fullBlockBytes(oe.b)) == string(fullBlockBytes(p.b)), string(encodeBlock(oe.b)) == string(encodeBlock(p.b)), pe != nil && pe.applied && string(pe.stateEnc) == string(encodeState(n.tip)))
+					}
+				}
+			}
 			p.invalid = true
 			if w.fatal {
 				return
@@ -185,6 +202,9 @@ func (n *Node) receiveBlock(b types.Block) (known bool) {
 	w := n.w
 	id := b.ID()
 	if old, ok := n.blocks[id]; ok {
+		if debugHook != nil && old.invalid {
+			w.log.Addf("DBG node=%d again invalid-marked %s applied=%v same=%v full-same=%v", n.idx, short(id), old.applied, string(encodeBlock(old.b)) == string(encodeBlock(b)), string(fullBlockBytes(old.b)) == string(fullBlockBytes(b)))
+		}
 		// A block marked invalid may have been a damaged copy that kept its ID
 		// (Merkle proofs and v2 witnesses are not covered by the ID). Do not let
 		// it poison the ID: a different encoding gets a fresh evaluation.
@@ -400,4 +420,20 @@ func (n *Node) submit(pt *PoolTxn) error {
 	}
 	n.pool = append(n.pool, pt)
 	return nil
+}
+
+// hasInvalidAncestor reports whether the (unapplied) branch ending in id hangs
+// off a block this node marked invalid.
+func (n *Node) hasInvalidAncestor(id types.BlockID) bool {
+	for i := 0; i < 200; i++ {
+		e, ok := n.blocks[id]
+		if !ok || e.applied {
+			return false
+		}
+		if e.invalid {
+			return true
+		}
+		id = e.parent
+	}
+	return false
 }
